@@ -10,15 +10,24 @@ CfgOf(in) == [mode |-> in.cfg.mode, min |-> in.cfg.min, max |-> in.cfg.max,
 
 \* "rootdir": find / -maxdepth 0 -exec[dir] CMD {} ; or + - the one entry there is, run once, from the root directory
 RootDir(in) == in.mode = "rootdir"
+\* "reltool": find d/a d/b d/c -type f ! -name tool -execdir ./tool {} + (or ;) where only d/b has a ./tool: the
+\* invocations in d/a and d/c cannot be started, the one(s) in d/b can - with g1 and g2, from d/b
+RelTool(in) == in.mode = "reltool"
+G1 == <<46, 47, 103, 49>>   G2 == <<46, 47, 103, 50>>   DB == <<100, 47, 98>>
+RelToolOK(in, obs) ==
+  IF in.plus
+  THEN obs.execs = << [argv |-> <<G1, G2>>, cwd |-> DB] >> /\ obs.exit # 0        \* an invocation could not be started
+  ELSE obs.execs = << [argv |-> <<G1>>, cwd |-> DB], [argv |-> <<G2>>, cwd |-> DB] >> /\ obs.exit = 0   \* (C09: not find's business)
 InDomain(in, obs) ==
-  RootDir(in) \/
+  RootDir(in) \/ RelTool(in) \/
   /\ in.cfg.mode = "P"
   /\ WalkRoots(in.tree, CfgOf(in), in.roots).errs = 0
   /\ (in.execdir => ExecdirDom(in.roots))
 
 Conforms(in, obs) ==
   /\ "panic" \notin DOMAIN obs
-  /\ IF RootDir(in) THEN obs.nexec = 1 /\ obs.exit = 0 /\ obs.argv = << <<47>> >> /\ (in.execdir => obs.cwd = <<47>>)
+  /\ IF RelTool(in) THEN RelToolOK(in, obs)
+     ELSE IF RootDir(in) THEN obs.nexec = 1 /\ obs.exit = 0 /\ obs.argv = << <<47>> >> /\ (in.execdir => obs.cwd = <<47>>)
      ELSE IF in.mode = "single"
      THEN LET r == SingleExecRun(in.tree, CfgOf(in), in.roots, in.pre, in.template, in.execdir, in.script, in.nocmd) IN
           /\ obs.execs = r.execs /\ obs.truth = r.truth /\ obs.exit = r.exit
@@ -30,7 +39,7 @@ Conforms(in, obs) ==
      ELSE /\ MultiExecOK(in.tree, CfgOf(in), in.roots, in.pre, in.fixed, in.execdir, in.script, in.quit, in.two, obs.execs, obs.exit)
           /\ MultiTruthOK(in.tree, CfgOf(in), in.roots, in.pre, in.quit, obs.truthn, IF "truth" \in DOMAIN obs THEN obs.truth ELSE <<>>, "truth" \in DOMAIN obs)
 
-Describe(in) == IF RootDir(in) THEN [nexec |-> 1] ELSE IF in.mode = "single"
+Describe(in) == IF RootDir(in) \/ RelTool(in) THEN [nexec |-> 1] ELSE IF in.mode = "single"
                 THEN SingleExecRun(in.tree, CfgOf(in), in.roots, in.pre, in.template, in.execdir, in.script, in.nocmd)
                 ELSE [reached |-> Paths(Reached(in.tree, CfgOf(in), in.roots, in.pre))]
 Beyond(in) == FALSE
